@@ -712,7 +712,7 @@ def gen_queries(rng, kind, n):
                 curX = rng.choice(Xs)
         rm = rng.random() < 0.3
         names = ['df', 'df', 'df', 'interdiff', 'tracer', 'ic'] if kind in ('B', 'N') else \
-                ['df', 'df', 'df', 'interdiff', 'tracer', 'ic', 'curv', 'curv', 'growth', 'curv1', 'imp', 'mixed1']
+                ['df', 'df', 'df', 'interdiff', 'tracer', 'ic', 'curv', 'curv', 'growth', 'curv1']
         name = rng.choice(names)
         arr = rng.random() < 0.25
         if name in ('df', 'interdiff', 'tracer'):
@@ -741,18 +741,6 @@ def gen_queries(rng, kind, n):
         elif name == 'curv1':     # a single-phase composition: with a search direction, or without (fallback path)
             x1 = rng.choice(M_X1)
             qs.append(dict(name='curv', x=x1, T=curT, rm=rm, dir=([0.18, 0.06] if rng.random() < 0.5 else None)))
-        elif name == 'imp':
-            qs.append(dict(name='imp', x=curX, T=curT, rm=rm, dir=None))
-        elif name == 'mixed1':
-            # MIXED removeCache usage: a query that keeps its equilibrium, then removeCache=True queries at a single-phase
-            # composition without searchDir (curvature factors / growth / impingement)
-            qs.append(dict(name=rng.choice(['curv', 'imp']), x=curX, T=curT, rm=False, dir=None))
-            for _ in range(rng.randint(1, 2)):
-                x1 = rng.choice(M_X1); nm = rng.choice(['curv', 'growth', 'imp'])
-                if nm == 'growth':
-                    qs.append(dict(name='growth', x=x1, T=curT, rm=True, dG=rng.choice([200.0, 600.0]), R=[rng.uniform(1e-9, 5e-9)], g=[rng.uniform(50.0, 400.0)]))
-                else:
-                    qs.append(dict(name=nm, x=x1, T=curT, rm=True, dir=None))
         else:
             k = rng.randint(1, 3)
             qs.append(dict(name='growth', x=curX, T=curT, rm=rm, dG=rng.choice([200.0, 600.0]),
@@ -761,6 +749,22 @@ def gen_queries(rng, kind, n):
             qs.append(dict(name='clear'))
         if rng.random() < 0.03:
             qs.append(dict(name='dens', d=rng.choice([1500, 2000, 1000])))
+    return qs
+
+
+def insert_mixed(rng, qs):
+    """MIXED removeCache usage (own random stream): a curvature / impingement query that keeps its equilibrium, then removeCache=True
+    queries at a single-phase composition without searchDir (curvature factors / growth / impingement), spliced into a sequence"""
+    for _ in range(rng.randint(1, 2)):
+        blk = [dict(name=rng.choice(['curv', 'imp']), x=rng.choice(M_X2), T=rng.choice(M_T[:3]), rm=False, dir=None)]
+        for _ in range(rng.randint(1, 2)):
+            x1 = rng.choice(M_X1); nm = rng.choice(['curv', 'growth', 'imp'])
+            if nm == 'growth':
+                blk.append(dict(name='growth', x=x1, T=blk[0]['T'], rm=True, dG=rng.choice([200.0, 600.0]), R=[rng.uniform(1e-9, 5e-9)], g=[rng.uniform(50.0, 400.0)]))
+            else:
+                blk.append(dict(name=nm, x=x1, T=blk[0]['T'], rm=True, dir=None))
+        k = rng.randint(0, len(qs))
+        qs = qs[:k] + blk + qs[k:]
     return qs
 
 
@@ -1396,7 +1400,8 @@ def corr_thermo(ctx, res, use_model=True):
                        dict(name='df', x=[ax, A_X[1]], T=[aT, A_T[1]], rm=False, arr=True, pp='U2_PHASE'), dict(name='df', x=ax, T=aT, rm=False, arr=False, pp='U1_PHASE')]
         # driving-force HISTORIES: two-phase point -> matrix-only point -> the SAME two-phase point, cache kept, one object, every
         # method (situation 'two-phase-after-matrix-only'); scripted points + points drawn from the pools
-        rng = ctx.rng
+        import random
+        rng = random.Random('C09-histories-%d' % ctx.seed)      # own stream: the older random plans keep theirs
         for mth in ['approximate', 'curvature', 'sampling', 'tangent']:
             for kind_, P_, U_, T_ in [('M', M_X2[1], [0.01, 0.01], M_T[1]), ('B', B_X[0], 2e-5, B_T[1]),
                                       ('M', rng.choice(M_X2[:4]), rng.choice(XUNDER['M']), rng.choice(M_T[:3])),
@@ -1434,6 +1439,8 @@ def corr_thermo(ctx, res, use_model=True):
                     m2 = ctx.rng.choice(['approximate', 'sampling', 'curvature'])
                     qs = qs[:k] + [dict(name='method', m=m2), dict(name='df', x=POOLS[kind][0][0], T=POOLS[kind][1][0], rm=False, arr=False),
                                    dict(name='method', m='tangent')] + qs[k:]
+                if method == 'tangent' and kind == 'M':
+                    qs = insert_mixed(rng, qs)
                 if method != 'tangent':
                     qs = [q for q in qs if q['name'] in ('df', 'clear', 'dens', 'interdiff')] or [dict(name='df', x=POOLS[kind][0][0], T=POOLS[kind][1][0], rm=False, arr=False)]
                 seq_guarded(ctx, res, kind, method, qs, inst, use_model, sid)
@@ -1610,7 +1617,8 @@ def check_dn_case(res, c, out):
 
 
 def corr_diffnodes(ctx, res, use_model=True):
-    rng = ctx.rng
+    import random
+    rng = random.Random('C09-diffnodes-%d' % ctx.seed)          # own stream: the older random plans keep theirs
     cases = [gen_dn_case(rng, 'single-phase:NiCr', N=ctx.n(40, 100), kind='ramp', rel=5e-6, cache=False, sens=4),
              gen_dn_case(rng, 'single-phase:NiCr', N=ctx.n(40, 100), kind='ramp', rel=5e-6, cache=True, sens=8),
              gen_dn_case(rng, 'single-phase:NiCrAl', N=ctx.n(20, 60), kind='ramp', rel=2e-6, cache=False, sens=4),
